@@ -606,38 +606,46 @@ func ruleC08KindGroups(c *Ctx) {
 	}
 	// the object keywords run only for maps whose key kind is String: a test of instance.Type().Key().Kind() that
 	// returns an error dominates every keyed access
-	var keyKindTest *ssa.If
-	c.eachFamOwn(m.E, func(i ssa.Instruction) {
-		ifi, ok := i.(*ssa.If)
+	var keyKindTest ssa.Instruction
+	for _, fi := range c.familyInstrs(m.E) {
+		ifi, ok := fi.I.(*ssa.If)
 		if !ok {
-			return
+			continue
 		}
 		bo, ok := ifi.Cond.(*ssa.BinOp)
 		if !ok || (bo.Op != token.NEQ && bo.Op != token.EQL) {
-			return
+			continue
 		}
 		k, isK := bo.Y.(*ssa.Const)
 		kv, okv := constInt(k)
 		if !isK || !okv || kv != kString {
-			return
+			continue
 		}
 		kc, ok := bo.X.(*ssa.Call)
 		if !ok || !kc.Call.IsInvoke() || kc.Call.Method.Name() != "Kind" {
-			return
+			continue
 		}
-		// receiver: instance.Type().Key()
+		// receiver: instance.Type().Key()  (the test may sit in a helper: its parameter is the instance on this call path)
 		if keyc, ok := kc.Call.Value.(*ssa.Call); ok && keyc.Call.IsInvoke() && keyc.Call.Method.Name() == "Key" {
-			if tc, ok := keyc.Call.Value.(*ssa.Call); ok && core.CalleeKey(&tc.Call) == "reflect.Value.Type" && isSame(tc.Call.Args[0]) {
+			if tc, ok := upValue(keyc.Call.Value, fi.Path).(*ssa.Call); ok && core.CalleeKey(&tc.Call) == "reflect.Value.Type" && (isSame(tc.Call.Args[0]) || isSame(upValue(tc.Call.Args[0], fi.Path))) {
 				failSucc := ifi.Block().Succs[0]
 				if bo.Op == token.EQL {
 					failSucc = ifi.Block().Succs[1]
 				}
-				if blockReturnsError(failSucc) || blockReturnsErrorDeep(failSucc) {
-					keyKindTest = ifi
+				if blockReturnsErrorLocal(failSucc) || blockReturnsErrorDeepLocal(failSucc) {
+					okProp := true
+					for _, site := range fi.Path {
+						if !errorPropagated(site) {
+							okProp = false
+						}
+					}
+					if okProp {
+						keyKindTest = fi.Top()
+					}
 				}
 			}
 		}
-	})
+	}
 	if keyKindTest == nil {
 		c.R.Bad(rule, "object-group:string-keys-only", c.P.Pos(m.E.Pos()), "the evaluator does not refuse maps whose key kind is not string before the object keywords: the keyed access converts a string to the map's key type and reflect panics for, e.g., map[int]any")
 	} else {
